@@ -25,7 +25,7 @@ class _Absent:
 ABSENT = _Absent()
 
 DOM = {
-    "type": [ABSENT, "direct-tcp-v1", "tor-tcp-v1", "relay-v1", "bogus-v9", 5],
+    "type": [ABSENT, "direct-tcp-v1", "tor-tcp-v1", "relay-v1", "bogus-v9", 5, ["direct-tcp-v1"], {"t": 1}],
     "hostname": [ABSENT, "host.example", 5, None],
     "port": [ABSENT, 1234, -1, True, "80", None],
     "priority": [ABSENT, 0.0, 3, "high", None, [1], {"p": 1}],
